@@ -70,6 +70,7 @@ func vserhist(args []string) error {
 	for d := range docs {
 		for mode := 0; mode < 4; mode++ {
 			ops = append(ops, serOp{key: fmt.Sprintf("ser/%d/%d", d+1, mode), kind: "ser", doc: d, mode: mode, label: fmt.Sprintf("Serialize(doc%d,mode%d)", d, mode)})
+			fresh = simdjson.NewSerializer() // the blobs of the operation table come from Serializers without a past
 			fresh.CompressMode(simdjson.CompressMode(mode))
 			b := append([]byte{}, fresh.Serialize(nil, *docs[d])...)
 			ops = append(ops, serOp{key: fmt.Sprintf("deser/%d/%d", d+1, mode), kind: "deser", doc: d, mode: mode, blob: b, label: fmt.Sprintf("Deserialize(doc%d written in mode%d)", d, mode)})
@@ -158,7 +159,10 @@ func vserhist(args []string) error {
 				}
 				i, ok := byKey[strings.Join(parts, "/")]
 				if !ok {
-					return fmt.Errorf("SerHist operation %v has no real counterpart (its blob could not be built)", parts)
+					// this tree writes the block uncompressed or too short to damage: the history has no real counterpart
+					rep.Count("histories_without_a_real_counterpart", 1)
+					h = nil
+					break
 				}
 				h = append(h, i)
 			}
